@@ -88,3 +88,46 @@ def snapnd(E, h):
         "shape": list(h.shape),
         "axis_names": list(h.axis_names),
     }
+
+
+def product_indices(shape):
+    import itertools
+
+    return list(itertools.product(*[range(s) for s in shape]))
+
+
+def getcell(a, idx):
+    for i in idx:
+        a = a[i]
+    return a
+
+
+def nested(flat, shape):
+    """Flat list -> nested lists of the given shape."""
+    if len(shape) == 1:
+        return list(flat)
+    step = 1
+    for s in shape[1:]:
+        step *= s
+    return [nested(flat[i * step:(i + 1) * step], shape[1:]) for i in range(shape[0])]
+
+
+def declare_cells(cx, name, shape, kind="real", nonneg=True):
+    """Symbolic cell contents as a flat list (C order)."""
+    n = 1
+    for s in shape:
+        n *= s
+    if kind == "int":
+        cells = cx.ints(name, n, lo=0 if nonneg else None)
+    else:
+        cells = cx.reals(name, n)
+        if cx.sym and nonneg:
+            cx.assume(*[c >= 0 for c in cells])
+    return cells
+
+
+def declare_edges(cx, name, m):
+    e = cx.reals(name, m + 1)
+    if cx.sym:
+        cx.assume(*[e[j] < e[j + 1] for j in range(m)])
+    return e
